@@ -7,6 +7,16 @@ HERE = os.path.dirname(os.path.dirname(os.path.abspath(__file__)))
 
 # id -> (level category, technique, level text, level note, design ref)
 CHECKS = {
+    'C07': ('exploration', 'online observer on every find_fqn call of a build + build-level oracle over re-spelled references, decided by a set-comprehension resolver; sample compiled against distinct C++ types',
+            'Held on the builds of the run: per base model up to 6 reference sites x up to 14 spellings drawn from every declared name; unique-and-right-kind must build with exactly that '
+            'declaration in the emitted text, anything else must fail.',
+            'Only references the shell really uses are judged (port types, parameters of rerouted events, claim reply enum).',
+            'DESIGN.md section 3 C07'),
+    'C11': ('exploration', 'ThreadSanitizer on the emitted multi-client C++ with sleep injection + deterministic cooperative scheduler enumerating interleavings under a preemption bound + in-process claim-holder oracle',
+            'Held on the executions of the run: TSan runs with 2-3 client threads and environment out-events; thousands (quick) to ~10^5 (thorough) distinct schedules of the '
+            'claim/use/release scenario explored depth-first and at random, deadlock decided logically; MutexWrapped alone under TSan.',
+            'Yield points are where user code can observe; the schedule space is bounded by a preemption bound and a run budget, reported in the evidence.',
+            'DESIGN.md section 3 C11'),
     'C04': ('exploration', 'history monitor: scripted claim/release/other/out histories on the compiled multi-client shell vs a sequential claim-holder model',
             'Held on the histories of the run: every history of length <=3 (quick) / <=4 (thorough) over two clients enumerated on one program, '
             'random histories of up to 30 operations with 1-5 clients on the others; per-client recorders decide who received each out-event.',
